@@ -122,6 +122,7 @@ _UNOPS = {ast.Not: 'not', ast.USub: '-', ast.UAdd: '+', ast.Invert: '~'}
 
 
 UNSUPPORTED = ('unsupported',)
+_FUNC_BY_ID = {}      # id(FunctionDef) -> node, for ('func', name, id) terms (nodes stay alive with their module)
 
 # The vocabulary of the rules: functions of the repository that checks recognise by name as opaque operations
 # (confirmed on the reference tree).  A call to one of these stays a call term; every other helper that resolves
@@ -200,6 +201,15 @@ def mk_comp(kind, elt, gens):
 SKIP = ('skip-iteration',)
 
 
+def _literal_seq(t, limit=16):
+    """items of a literal tuple / list term whose members are constants (or tuples of constants), else None"""
+    def lit(x):
+        return x[0] == 'const' or (x[0] in ('tuple', 'list') and all(lit(y) for y in x[1]))
+    if t[0] in ('tuple', 'list') and 0 < len(t[1]) <= limit and all(lit(x) for x in t[1]):
+        return list(t[1])
+    return None
+
+
 def _mutable_literal(t):
     if t[0] in ('list', 'dict'):
         return True
@@ -244,6 +254,21 @@ def _read_only_uses(modtree, name):
     return True
 
 
+def _expression_like(fd):
+    """does the body consist only of what inline_expr folds into a term (returns, ifs, assignments, calls)?"""
+    def ok(stmts):
+        for x in stmts:
+            if isinstance(x, (ast.Return, ast.Assign, ast.AnnAssign, ast.Expr, ast.Pass, ast.Assert)):
+                continue
+            if isinstance(x, ast.If):
+                if not ok(x.body) or not ok(x.orelse):
+                    return False
+                continue
+            return False
+        return True
+    return ok(fd.body)
+
+
 def _forkable(fd):
     """can the body be run by the statement walker (no generators / nested class tricks)?"""
     for n in ast.walk(fd):
@@ -278,7 +303,15 @@ def concat_str(l, r):
 
 def mk_fstr(parts):
     out = []
+    flat = []
     for p in parts:
+        if isinstance(p, tuple) and p and p[0] == 'fstr':
+            flat.extend(p[1])           # a template inside a template is one template
+        elif isinstance(p, tuple) and p and p[0] == 'const' and isinstance(p[1], str):
+            flat.append(p[1])
+        else:
+            flat.append(p)
+    for p in flat:
         if isinstance(p, str) and out and isinstance(out[-1], str):
             out[-1] += p
         elif isinstance(p, str) and not p:
@@ -412,15 +445,27 @@ class SymExec(object):
         self.fold_loops = fold_loops
         self.no_inline = set(no_inline) | VOCABULARY
         self._stack = [fn]
-        node = fn
-        self.cls = None
+        self._consts_by_mod = {}
+        self._fn_by_id = None
+
+    @staticmethod
+    def _context(node):
+        """(module tree, innermost enclosing class) of an AST node"""
+        cls = None
         while getattr(node, '_parent', None) is not None:
             node = node._parent
-            if isinstance(node, ast.ClassDef) and self.cls is None:
-                self.cls = node
-        self.modtree = node if isinstance(node, ast.Module) else None
-        self._consts = None
-        self._fn_by_id = None
+            if isinstance(node, ast.ClassDef) and cls is None:
+                cls = node
+        return (node if isinstance(node, ast.Module) else None), cls
+
+    @property
+    def modtree(self):
+        """module of the function being walked right now (an inlined helper may live in another module)"""
+        return self._context(self._stack[-1])[0]
+
+    @property
+    def cls(self):
+        return self._context(self._stack[-1])[1]
 
     # -- expressions -------------------------------------------------------
     def ev(self, n, st):
@@ -621,12 +666,13 @@ class SymExec(object):
     # -- interprocedural helpers ---------------------------------------------
     def module_const(self, name):
         """term of a module-level name bound exactly once to a literal made of constants (str/num/tuples/sets/dicts)"""
-        if self.modtree is None:
+        modtree = self.modtree
+        if modtree is None:
             return None
-        if self._consts is None:
-            self._consts = {}
+        if id(modtree) not in self._consts_by_mod:
+            consts = self._consts_by_mod[id(modtree)] = {}
             seen = {}
-            for s_ in self.modtree.body:
+            for s_ in modtree.body:
                 tg = []
                 if isinstance(s_, ast.Assign):
                     tg, val = s_.targets, s_.value
@@ -637,15 +683,15 @@ class SymExec(object):
                         seen[t.id] = seen.get(t.id, 0) + 1
                         lit = _literal_term(val)
                         if lit is not None:
-                            self._consts[t.id] = lit
+                            consts[t.id] = lit
             for k, cnt in seen.items():
                 if cnt != 1:
-                    self._consts.pop(k, None)
+                    consts.pop(k, None)
             # a mutable literal (list / dict / set) counts as a constant only if the module uses it read-only everywhere
-            for k in [k for k, v in self._consts.items() if _mutable_literal(v)]:
-                if not _read_only_uses(self.modtree, k):
-                    del self._consts[k]
-        return self._consts.get(name)
+            for k in [k for k, v in consts.items() if _mutable_literal(v)]:
+                if not _read_only_uses(modtree, k):
+                    del consts[k]
+        return self._consts_by_mod[id(modtree)].get(name)
 
     def resolve(self, f, st):
         """FunctionDef a call target term denotes (same module / class / enclosing function), or None"""
@@ -653,9 +699,15 @@ class SymExec(object):
             return None
         fd = None
         if f[0] == 'func':
-            if self._fn_by_id is None:
-                self._fn_by_id = {id(n): n for n in ast.walk(self.modtree) if isinstance(n, ast.FunctionDef)}
-            fd = self._fn_by_id.get(f[2])
+            fd = _FUNC_BY_ID.get(f[2])
+            if fd is None:
+                for root in (self.modtree, self._context(self._stack[0])[0]):
+                    for n in ast.walk(root) if root is not None else ():
+                        if isinstance(n, ast.FunctionDef) and id(n) == f[2]:
+                            fd = _FUNC_BY_ID[f[2]] = n
+                            break
+                    if fd is not None:
+                        break
         elif f[0] == 'name':
             # lexical lookup: enclosing function bodies (sibling closures), then the module
             scope = getattr(self._stack[-1], '_parent', None)
@@ -665,6 +717,8 @@ class SymExec(object):
                         if isinstance(s_, ast.FunctionDef) and s_.name == f[1]:
                             fd = s_
                 scope = getattr(scope, '_parent', None)
+            if fd is None:
+                fd = self.imported(f[1])
         elif f[0] == 'attr' and f[1][0] == 'name':
             owner = None
             if f[1][1] in ('self', 'cls') and self.cls is not None:
@@ -685,6 +739,29 @@ class SymExec(object):
         if any(isinstance(n, (ast.Yield, ast.YieldFrom, ast.Await)) for n in ast.walk(fd)):
             return None
         return fd
+
+    def imported(self, name):
+        """a function of another module of the repository bound here by `from pkg.mod import name [as alias]`"""
+        modtree = self.modtree
+        pym = getattr(modtree, '_pymodule', None)
+        repo = getattr(pym, 'repo', None)
+        if repo is None:
+            return None
+        for s_ in modtree.body:
+            if isinstance(s_, ast.ImportFrom) and s_.module and s_.level == 0:
+                for al in s_.names:
+                    if (al.asname or al.name) == name:
+                        for rel in (s_.module.replace('.', '/') + '.py', s_.module.replace('.', '/') + '/__init__.py'):
+                            if repo.exists(rel):
+                                try:
+                                    other = repo.module(rel)
+                                except Exception:
+                                    return None
+                                for d in other.tree.body:
+                                    if isinstance(d, ast.FunctionDef) and d.name == al.name:
+                                        return d
+                        return None
+        return None
 
     def bind_params(self, fd, f, args, kws, st):
         """-> env dict for the callee or None if the call does not bind"""
@@ -972,6 +1049,12 @@ class SymExec(object):
                         yield r
         elif isinstance(s, ast.For) and self.fold_loops and self._fold_loop(s, st):
             yield st, 'fall'
+        elif isinstance(s, ast.For) and self.fold_loops and _literal_seq(self.ev(s.iter, st.copy())) is not None:
+            # a loop over a literal table is the sequence of its iterations
+            items = _literal_seq(self.ev(s.iter, st))
+            st.events.append(('loop-literal', ('tuple', tuple(items)), s))
+            for r in self._unroll_literal(s, items, st, 0):
+                yield r
         elif isinstance(s, (ast.For, ast.AsyncFor)):
             it = self.ev(s.iter, st)
             st0 = st.copy()
@@ -1037,6 +1120,7 @@ class SymExec(object):
             for r in self.block(s.body, st):
                 yield r
         elif isinstance(s, (ast.FunctionDef, ast.AsyncFunctionDef)):
+            _FUNC_BY_ID[id(s)] = s
             st.env[s.name] = ('func', s.name, id(s))
             yield st, 'fall'
         elif isinstance(s, ast.ClassDef):
@@ -1076,6 +1160,13 @@ class SymExec(object):
                 call, kind = t, 'if'
         if call is None:
             return None
+        if kind != 'if':
+            # a helper that is one (conditional) expression is inlined as a value -- `x = h(a)` then reads like
+            # `x = <body of h>` -- and only helpers with statements of their own (loops, raises) fork the path
+            probe = st.copy()
+            fd_ = self.resolve(self.ev(call.func, probe), probe)
+            if fd_ is not None and _expression_like(fd_):
+                return None
         gen = self.fork_call(call, st.copy())
         if gen is None:
             return None
@@ -1115,6 +1206,21 @@ class SymExec(object):
                             continue
                         for r in self.block(body, st3):
                             yield r
+
+    def _unroll_literal(self, s, items, st, i):
+        if i == len(items):
+            for r in self.block(s.orelse, st):
+                yield r
+            return
+        self.bind(s.target, items[i], st, s)
+        for st2, out in self.block(s.body, st):
+            if out in ('fall', 'continue'):
+                for r in self._unroll_literal(s, items, st2, i + 1):
+                    yield r
+            elif out == 'break':
+                yield st2, 'fall'
+            else:
+                yield st2, out
 
     def _fold_search_loop(self, s, ret, st):
         """for x in it: [locals]; if c: return K      followed by      return not-K        (K a boolean constant)
